@@ -274,6 +274,15 @@ FLAVOURS = ["random", "random", "grid", "duplicates", "constant_feature", "all_e
 # ---------------------------------------------------------------------------------------------
 # exploration shared by C01 and C02
 
+def has_duplicate_candidates(data, cand, cs):
+    """Do two candidates have identical feature rows?"""
+    try:
+        Xc = np.asarray(cand, dtype=float) if (cand is not None and np.asarray(cand).ndim == 2) else np.asarray(data["X"], dtype=float)[np.asarray(cs, dtype=int)]
+        return len(np.unique(Xc, axis=0)) < len(Xc)
+    except Exception:  # noqa: BLE001
+        return False
+
+
 def finding_key(prop, spec, kind, U=None):
     key = f"{prop}/{spec.name}.query/{kind}"
     if U is not None and kind in ("duplicate-index", "nan-pattern", "pick-is-nan", "pick-not-row-max", "non-candidate-selected"):
@@ -289,12 +298,17 @@ def finding_key(prop, spec, kind, U=None):
     return key
 
 
-def gen_case(ctx, spec, rng, sizes=(4, 11)):
+def gen_case(ctx, spec, rng, sizes=(4, 11), endgame=False):
     nrs = np.random.RandomState(rng.randrange(2**31 - 1))
     n = rng.randint(*sizes)
     flavour = rng.choice(FLAVOURS)
     cold = rng.random() < 0.12
     n_lab = 0 if cold else rng.randint(0, n - 1)
+    if endgame:
+        # the end of an active-learning run on a larger pool: several labels, distinct points, and a batch that takes (almost)
+        # every remaining candidate -- the regime in which per-cluster / per-leaf quotas have to be redistributed (seed R6C01)
+        flavour = "random"
+        n_lab = rng.randint(2, max(2, n - 3))
     data = make_data(nrs, n, spec.kind, flavour, n_labeled=n_lab, classes=spec.classes or (0, 1, 2))
     modes = ["none", "idx"] + (["rows"] if spec.rows else [])
     mode = rng.choice(modes)
@@ -309,6 +323,8 @@ def gen_case(ctx, spec, rng, sizes=(4, 11)):
     b = rng.choice([1, 2, 3, max(1, len(cs) - 1), len(cs), len(cs) + 2])
     if hard:
         b = rng.choice([2, 3, len(cs), max(2, len(cs) - 1), len(cs) + 1])
+    if endgame:
+        b = rng.choice([max(1, len(cs) - 2), max(1, len(cs) - 1), len(cs), len(cs) + 1])
     seed = rng.randrange(10**6)
     return dict(spec=spec.name, n=n, flavour=flavour, mode=mode, b=int(b), seed=seed, X=data["X"], y=data["y"],
                 candidates=cand), data, cand, cs, ncols
@@ -330,6 +346,8 @@ def eval_case(ctx, prop, spec, case, data, cand, cs, ncols, lines, checks):
         ctx.count("query_raised")
         if prop == "C01":
             k = "non-termination" if r["err"] == "non-termination" else "raises:" + r["err"].split(":")[0]
+            if k.startswith("raises") and has_duplicate_candidates(data, cand, cs):
+                k += "/duplicated-candidate-points"    # precondition class (part of the key a known finding is matched by)
             ctx.violate(finding_key("C01", spec, k), f"{spec.name}.query raised on a valid input: {r['err']}", case)
         return
     q, shape_problem = as_index_list(r["q"])
@@ -538,16 +556,20 @@ def finish_lines(ctx, lines, checks):
             ctx.disagree(f"{what}: SkaModel.Core.Pool vs implementation", dict(case, line=line[:2000]), out[:2000], impl[:2000])
 
 
-def explore(ctx, prop, per_spec, sizes=(4, 11), only=None):
+def explore(ctx, prop, per_spec, sizes=(4, 11), only=None, endgame=False, skeleton=None):
     rng = ctx.rng
     lines, checks = [], []
     for spec in pool_specs():
         if only and spec.cls not in only:
             continue
+        if skeleton and spec.skeleton != skeleton:
+            continue
         done = tries = 0
         while done < per_spec and tries < per_spec * 3:
             tries += 1
-            g = gen_case(ctx, spec, rng, sizes)
+            g = gen_case(ctx, spec, rng, sizes, endgame=endgame)
+            if endgame:
+                ctx.count("endgame_regime_cases")
             if g is None:
                 continue
             case, data, cand, cs, ncols = g
